@@ -18,3 +18,6 @@ def run(tier, seed):
         "C11", ["C11_ReturnImplies", "C11_CollectIffRaise", "C11_ItemsHeld"], ["C11_ItemsInserted"], tier, seed, focus="C11", then="validate"
     )
     return cfgmachine.merge(out, fam)
+
+
+replay_file = cfgmachine.replay_file
